@@ -388,7 +388,7 @@ def rule_T2(ctx):
                 if not w["instr"] <= disp:
                     r.finding(fp, "opid:" + last(fp), loc(F.fns[fp]["hir"]), "`%s` reports Instruction {%s} to the host but is dispatched from {%s}" % (
                         last(fp), ",".join(sorted(map(last, w["instr"]))), ",".join(sorted(map(last, disp)))))
-    r.floor("runtime fns passing an Instruction constant towards defer_op", n_defer, 20)
+    r.floor("runtime fns passing an Instruction constant towards defer_op", n_defer, 10)
     return r
 
 
@@ -645,7 +645,7 @@ def rule_T13(ctx):
         for i, p in enumerate(f.get("params", [])):
             if p.get("k") == "Binding" and p.get("name") == "under_group":
                 role[f["path"]] = i
-    r.floor("parser helpers taking the enclosing group", len(role), 3)
+    r.floor("parser helpers taking the enclosing group", len(role), 2)
     n = 0
     for f in fns:
         body = Body(f)
@@ -681,7 +681,7 @@ def rule_T13(ctx):
             if not ok:
                 r.finding(f["path"], "group-arg:%s:%s" % (last(d), "/".join(sorted(kinds - {"forwarded", "group-stack-entry"}) or ["unknown"])), loc(c),
                           "`%s` is told its enclosing group is a value originating from %s; every sibling call passes the bracket's node index taken from the group stack - a depth is compared against node indices when the parent chain is walked, so the token escapes its brackets" % (last(d), sorted(kinds)))
-    r.floor("calls passing the enclosing group", n, 10)
+    r.floor("calls passing the enclosing group", n, 5)
     return r
 
 
